@@ -1,12 +1,24 @@
-import DaeVerif.C03.ParseProofs
+import DaeVerif.C03.HookProofs
 /-!
 # C03 — property theorems
 
 Only statements a reader should audit live here (namespace `DaeVerif.C03.Props`); helper lemmas are
-in `ParseProofs.lean` / `Proofs.lean`.  Every theorem is followed by a non-vacuity `example`.
+in `ParseProofs`, `Proofs`, `VerdictProofs`, `SourceProofs`, `HookProofs`.  Every theorem is
+followed by a non-vacuity `example`.
+
+Vocabulary (`Spec.lean`): `lanFate w s p d` / `wanFate w s p d` — the fate (`pass mark | drop |
+toDae`) the property text assigns to decision `d = (outbound, mark, must)`; `o.realises w s ingress
+f` — the hook's output `o` is that fate (verdict code, skb mark, frame bytes untouched on a pass,
+redirect target and `cb[0]` on a hand-over); `retrieve w k t` — the control plane's
+`RetrieveRoutingResult` for tuple `k` at time `t`; `connRoom` / `rtrackRoom` / `handoffRoom` — the
+map in question can take the entry (otherwise the code fails closed; stated separately).
+`rt` is the rule program: the value `route()` returns for its arguments — every theorem holds for
+every `rt`.
 -/
 namespace DaeVerif.C03.Props
 open DaeVerif.C03
+
+/-! ## Both header parsers -/
 
 /-- **Parse-path independence (headers).**  For every frame whose linear area is a prefix of the
 skb, whichever of the two parsers ends up handling it — the fast one on the linear bytes, or the
@@ -19,5 +31,232 @@ theorem parse_path_independent (bytes : Bytes) (proto : Nat) (l2 : Bool)
     parseTransport ⟨bytes, lin₁, pull₁, proto⟩ l2 = parseTransport ⟨bytes, lin₂, pull₂, proto⟩ l2 := by
   rw [parseTransport_eq_slow _ _ h₁, parseTransport_eq_slow _ _ h₂]
   rfl
+
+/-- **No verdict depends on the parse path.**  Two skbs that differ only in how much of the frame
+is linear and in whether `bpf_skb_pull_data` succeeded get the same verdict, the same skb effects
+and leave the same world behind, on every hook, for every rule program and world. -/
+theorem verdict_parse_path_independent (rt : RouteIn → Int) (w : World) (h : Hook) (l2 : Bool)
+    (bytes : Bytes) (proto iif ifx mark cookie : Nat) (sk : Option (Nat × Nat))
+    (lin₁ lin₂ : Nat) (pull₁ pull₂ : Bool) (h₁ : lin₁ ≤ bytes.length) (h₂ : lin₂ ≤ bytes.length) :
+    step rt w h ⟨⟨bytes, lin₁, pull₁, proto⟩, iif, ifx, mark, cookie, sk⟩ l2 =
+    step rt w h ⟨⟨bytes, lin₂, pull₂, proto⟩, iif, ifx, mark, cookie, sk⟩ l2 := by
+  have hp := parse_path_independent bytes proto l2 lin₁ lin₂ pull₁ pull₂ h₁ h₂
+  cases h <;> simp only [step, lanIngress, wanEgress, wanIngress, lanEgress, parsePacket, hp] <;> rfl
+
+/-! ## LAN ingress: the first packet of a flow -/
+
+/-- **New TCP connection from the LAN.**  A pure SYN is routed by the current rule program, and the
+frame gets the fate its decision earns: direct ⇒ passed unmodified with the rule's mark in
+`skb->mark`; block ⇒ dropped; proxy group whose health bit for (tcp, family) is down ⇒ dropped
+(destination port 53 excepted); otherwise redirected to dae.  Whatever the fate, the conn-state
+entry created for the flow holds the decision, and the control plane's `RetrieveRoutingResult`
+returns exactly (outbound, mark, must, DSCP, source MAC) from it at any later time. -/
+theorem lan_new_tcp_connection (rt : RouteIn → Int) (w : World) (s : Skb) (l2 : Bool) (p : Pkt)
+    (hp : parsePacket s.raw l2 = .pkt p) (ht : p.l4proto = IPPROTO_TCP) (hs : p.syn = true) (ha : p.ack = false)
+    (hr : 0 ≤ rt (lanRouteIn s p)) (hc : connRoom w p.tuples.five) (hrt : rtrackRoom w s p) :
+    (lanIngress rt w s l2).2.realises w s true (lanFate w s p (unpackRoute (rt (lanRouteIn s p)))) ∧
+    ∀ t, retrieve (lanIngress rt w s l2).1 p.tuples.five t =
+      some ⟨(unpackRoute (rt (lanRouteIn s p))).mark, (unpackRoute (rt (lanRouteIn s p))).must, p.ethSrc,
+            (unpackRoute (rt (lanRouteIn s p))).ob, zeros 16, 0, p.tuples.dscp⟩ := by
+  rw [lanIngress_pkt rt w s l2 p hp, lanIngressPkt_tcp_syn rt w s l2 p ht hs ha,
+    markTcpSeen_syn_room w p.tuples.five false (p.fin || p.rst) { dscp := p.tuples.dscp } hc]
+  have hrest : ({ w with conn := aerase w.conn p.tuples.five ++
+      [(p.tuples.five, newConnState false w.now { dscp := p.tuples.dscp })] } : World).rest = w.rest := rfl
+  constructor
+  · rw [← lanFate_congr hrest, ← realises_congr hrest]
+    exact lanRouteNew_fate rt _ s l2 p _ (lanLocalSocket_tcp_syn _ s p ht hs ha) hr (fun _ => rfl)
+      ((rtrackRoom_congr hrest s p).mpr hrt)
+  · intro t
+    have hl : alookup ({ w with conn := aerase w.conn p.tuples.five ++
+        [(p.tuples.five, newConnState false w.now { dscp := p.tuples.dscp })] } : World).conn p.tuples.five =
+        some (newConnState false w.now { dscp := p.tuples.dscp }) := by
+      simp only [alookup_append, alookup_aerase_self]; simp
+    have hsl : (decide (p.l4proto = IPPROTO_UDP) && shortLivedUdp p.tuples.five) = false := by
+      rw [ht]; rfl
+    rw [retrieve_of_conn _ _ t _ (lanRouteNew_conn rt _ s l2 p _ (lanLocalSocket_tcp_syn _ s p ht hs ha) hr hsl hl)
+      (by simp) (Or.inl (by rw [parsePacket_l4 hp, ht]))]
+    rfl
+
+/-- **Fail-closed when `conn_state_map` is full.**  A new TCP connection from the LAN whose state
+cannot be stored passes only if it is routed plain direct (direct, no mark); everything else is
+dropped rather than forwarded without a record. -/
+theorem lan_new_tcp_map_full (rt : RouteIn → Int) (w : World) (s : Skb) (l2 : Bool) (p : Pkt)
+    (hp : parsePacket s.raw l2 = .pkt p) (ht : p.l4proto = IPPROTO_TCP) (hs : p.syn = true) (ha : p.ack = false)
+    (hr : 0 ≤ rt (lanRouteIn s p)) (hc : ¬ connRoom w p.tuples.five) :
+    (lanIngress rt w s l2).2 =
+      if (unpackRoute (rt (lanRouteIn s p))).ob = OUTBOUND_DIRECT ∧ (unpackRoute (rt (lanRouteIn s p))).mark = 0
+      then outOk s 0 else outShot s := by
+  rw [lanIngress_pkt rt w s l2 p hp, lanIngressPkt_tcp_syn rt w s l2 p ht hs ha]
+  have hnone := markTcpSeen_syn_full w p.tuples.five false (p.fin || p.rst) { dscp := p.tuples.dscp } hc
+  have hrest := markTcpSeen_rest w p.tuples.five false true (p.fin || p.rst) { dscp := p.tuples.dscp }
+  unfold lanRouteNew
+  have hneg : ¬ rt (lanRouteIn s p) < 0 := by omega
+  rw [lanLocalSocket_congr hrest, lanLocalSocket_tcp_syn w s p ht hs ha, hnone]
+  simp only [Bool.false_eq_true, if_false, hneg, ht, decide_true, Option.isNone_none, Bool.and_self, if_true]
+  by_cases hd : (unpackRoute (rt (lanRouteIn s p))).ob = OUTBOUND_DIRECT ∧ (unpackRoute (rt (lanRouteIn s p))).mark = 0
+  · obtain ⟨h1, h2⟩ := hd
+    simp [h1, h2]
+  · simp only [hd, if_false]
+    have : (decide ((unpackRoute (rt (lanRouteIn s p))).ob = OUTBOUND_DIRECT) &&
+        (unpackRoute (rt (lanRouteIn s p))).mark == 0) = false := by
+      cases hx : (decide ((unpackRoute (rt (lanRouteIn s p))).ob = OUTBOUND_DIRECT) &&
+        (unpackRoute (rt (lanRouteIn s p))).mark == 0)
+      · rfl
+      · exfalso; apply hd
+        simp only [Bool.and_eq_true, decide_eq_true_eq, beq_iff_eq] at hx
+        exact hx
+    simp [this]
+
+/-- **New UDP flow from the LAN** (not port 53): no live entry, or a live entry that holds no
+decision yet.  The datagram is routed by the current rule program and gets the fate of its decision;
+the decision is cached in the flow's entry, from which `RetrieveRoutingResult` returns exactly
+(outbound, mark, must, DSCP, source MAC). -/
+theorem lan_new_udp_flow (rt : RouteIn → Int) (w : World) (s : Skb) (l2 : Bool) (p : Pkt)
+    (hp : parsePacket s.raw l2 = .pkt p) (ht : p.l4proto = IPPROTO_UDP)
+    (hsl : shortLivedUdp p.tuples.five = false)
+    (hnew : ∀ cs, udpLive w p.tuples.five = some cs → cs.hasRouting = 0 ∧ cs.wanDir = false)
+    (hc : udpLive w p.tuples.five = none → connRoom w p.tuples.five)
+    (hls : lanLocalSocket w s p = false)
+    (hr : 0 ≤ rt (lanRouteIn s p)) (hrt : rtrackRoom w s p) :
+    (lanIngress rt w s l2).2.realises w s true (lanFate w s p (unpackRoute (rt (lanRouteIn s p)))) ∧
+    ∀ t, (retrieve (lanIngress rt w s l2).1 p.tuples.five t).map
+        (fun r => (r.outbound, r.mark, r.must, r.dscp, r.mac)) =
+      some ((unpackRoute (rt (lanRouteIn s p))).ob, (unpackRoute (rt (lanRouteIn s p))).mark,
+            (unpackRoute (rt (lanRouteIn s p))).must, p.tuples.dscp, p.ethSrc) := by
+  have hnt : p.l4proto ≠ IPPROTO_TCP := by rw [ht]; decide
+  rw [lanIngress_pkt rt w s l2 p hp, lanIngressPkt_udp rt w s l2 p hnt hsl]
+  have hrest := markUdpSeen_rest w p.tuples.five false { dscp := p.tuples.dscp }
+  -- in both cases the conntrack call returns an entry without a decision, stored under the key
+  have hst : ∃ cs, (markUdpSeen w p.tuples.five false { dscp := p.tuples.dscp }).2 = some cs ∧
+      cs.wanDir = false ∧ cs.hasRouting = 0 ∧
+      alookup (markUdpSeen w p.tuples.five false { dscp := p.tuples.dscp }).1.conn p.tuples.five = some cs := by
+    cases hl : udpLive w p.tuples.five with
+    | none =>
+      rw [markUdpSeen_new_room w _ false _ hl (hc hl)]
+      refine ⟨_, rfl, rfl, rfl, ?_⟩
+      simp only [alookup_append, alookup_aerase_self]; simp
+    | some cs =>
+      rw [markUdpSeen_live w _ false _ cs hl]
+      obtain ⟨t, ht'⟩ := touchUdp_eq cs w.now { dscp := p.tuples.dscp } rfl
+      refine ⟨_, rfl, ?_, ?_, alookup_areplace_self _ _ _ _ (udpLive_lookup w _ cs hl)⟩
+      · rw [ht']; exact (hnew cs hl).2
+      · rw [ht']; exact (hnew cs hl).1
+  obtain ⟨cs, hm, hw, hr0, hlk⟩ := hst
+  rw [lanUdp_untracked rt w s l2 p cs hm hw hr0]
+  have hls' : lanLocalSocket (markUdpSeen w p.tuples.five false { dscp := p.tuples.dscp }).1 s p = false := by
+    rw [lanLocalSocket_congr hrest]; exact hls
+  constructor
+  · rw [← lanFate_congr hrest, ← realises_congr hrest]
+    exact lanRouteNew_fate rt _ s l2 p _ hls' hr (fun h => absurd h hnt) ((rtrackRoom_congr hrest s p).mpr hrt)
+  · intro t
+    have hsl' : (decide (p.l4proto = IPPROTO_UDP) && shortLivedUdp p.tuples.five) = false := by simp [hsl]
+    rw [retrieve_of_conn _ _ t _ (lanRouteNew_conn rt _ s l2 p cs hls' hr hsl' hlk) (by simp)
+      (Or.inr (by rw [parsePacket_l4 hp, ht]))]
+    rfl
+
+/-- **DNS datagram from the LAN** (UDP, port 53): stateless — routed on every datagram, no
+conn-state entry is created or consulted, and a dead group does not drop it (the control plane
+handles DNS fallback).  When it is handed over, the hand-off record carries exactly (outbound, mark,
+must, DSCP, source MAC) and `RetrieveRoutingResult` returns it during the next ten seconds. -/
+theorem lan_dns_datagram (rt : RouteIn → Int) (w : World) (s : Skb) (l2 : Bool) (p : Pkt)
+    (hp : parsePacket s.raw l2 = .pkt p) (ht : p.l4proto = IPPROTO_UDP)
+    (hsl : shortLivedUdp p.tuples.five = true) (hls : lanLocalSocket w s p = false)
+    (hr : 0 ≤ rt (lanRouteIn s p)) (hrt : rtrackRoom w s p) (hh : handoffRoom w p.tuples.five)
+    (hnc : ∀ cs, alookup w.conn p.tuples.five = some cs → cs.hasRouting = 0) (hnow : 0 < w.now) :
+    (lanIngress rt w s l2).2.realises w s true (lanFate w s p (unpackRoute (rt (lanRouteIn s p)))) ∧
+    (lanIngress rt w s l2).1.conn = w.conn ∧
+    (lanFate w s p (unpackRoute (rt (lanRouteIn s p))) = .toDae →
+      ∀ age, age ≤ HANDOFF_TIMEOUT →
+        retrieve (lanIngress rt w s l2).1 p.tuples.five (w.now + age) =
+          some ⟨(unpackRoute (rt (lanRouteIn s p))).mark, (unpackRoute (rt (lanRouteIn s p))).must, p.ethSrc,
+                (unpackRoute (rt (lanRouteIn s p))).ob, zeros 16, 0, p.tuples.dscp⟩) := by
+  have hnt : p.l4proto ≠ IPPROTO_TCP := by rw [ht]; decide
+  rw [lanIngress_pkt rt w s l2 p hp, lanIngressPkt_dns rt w s l2 p hnt hsl]
+  have hconn : (lanRouteNew rt w s l2 p none).1.conn = w.conn := by
+    unfold lanRouteNew lanCache
+    simp only [ht, hsl, decide_true, Bool.and_self, if_true]
+    leaves <;> first | rfl | simp
+  refine ⟨lanRouteNew_fate rt w s l2 p none hls hr (fun h => absurd h hnt) hrt, hconn, ?_⟩
+  intro hf age hage
+  have hho := lanRouteNew_handoff rt w s l2 p none hls hr (fun h => absurd h hnt) hrt hh hf
+  exact retrieve_of_handoff _ _ _ _ (by rw [hconn]; exact hnc) hho (handoff_fresh w.now age hnow hage)
+
+/-! ## LAN ingress: later packets of a tracked flow -/
+
+/-- **A tracked TCP flow follows its cached decision.**  While the entry of the flow is live (no
+pure SYN, not past its idle timeout) and holds a decision, a frame of the flow gets the fate of THAT
+decision — the rule program is not consulted (the result is the same for any two rule programs),
+whatever rules or learned domains have become meanwhile — and the entry keeps the decision. -/
+theorem lan_tracked_tcp_follows_cache (rt rt' : RouteIn → Int) (w : World) (s : Skb) (l2 : Bool) (p : Pkt)
+    (cs : ConnState) (hp : parsePacket s.raw l2 = .pkt p) (ht : p.l4proto = IPPROTO_TCP)
+    (hns : (p.syn && !p.ack) = false) (hl : tcpLive w p.tuples.five false = some cs)
+    (hr : cs.hasRouting ≠ 0) (hrt : rtrackRoom w s p) :
+    (lanIngress rt w s l2).2.realises w s true (lanFate w s p cs.decision) ∧
+    lanIngress rt w s l2 = lanIngress rt' w s l2 ∧
+    ∃ cs', alookup (lanIngress rt w s l2).1.conn p.tuples.five = some cs' ∧ cs'.decision = cs.decision ∧
+      cs'.hasRouting = cs.hasRouting ∧ cs'.wanDir = cs.wanDir := by
+  rw [lanIngress_pkt rt w s l2 p hp, lanIngress_pkt rt' w s l2 p hp, lanIngressPkt_tcp_est rt w s l2 p ht hns,
+    lanIngressPkt_tcp_est rt' w s l2 p ht hns]
+  obtain ⟨t, st, hte⟩ := touchTcp_eq cs w.now (p.fin || p.rst)
+  have hm := markTcpSeen_live w p.tuples.five false (p.fin || p.rst) {} cs hl
+  have hm2 : (markTcpSeen w p.tuples.five false false (p.fin || p.rst) {}).2 = some (touchTcp cs w.now (p.fin || p.rst) {}) := by
+    rw [hm]
+  have hdec : (touchTcp cs w.now (p.fin || p.rst) {}).decision = cs.decision := by rw [hte]; rfl
+  have hr' : (touchTcp cs w.now (p.fin || p.rst) {}).hasRouting ≠ 0 := by rw [hte]; exact hr
+  refine ⟨?_, rfl, ?_⟩
+  · rw [← hdec]
+    exact lanTcpEstablished_tracked_out w s l2 p _ hm2 hr' hrt
+  · refine ⟨touchTcp cs w.now (p.fin || p.rst) {}, ?_, hdec, by rw [hte], by rw [hte]⟩
+    unfold lanTcpEstablished
+    simp only [hm2, hr', if_false, lanVerdict_conn]
+    rw [hm]
+    exact alookup_areplace_self _ _ _ _ (tcpLive_lookup w _ false cs hl)
+
+/-- **A tracked UDP flow follows its cached decision** (LAN side; not port 53, not a flow opened
+from the WAN side). -/
+theorem lan_tracked_udp_follows_cache (rt rt' : RouteIn → Int) (w : World) (s : Skb) (l2 : Bool) (p : Pkt)
+    (cs : ConnState) (hp : parsePacket s.raw l2 = .pkt p) (ht : p.l4proto = IPPROTO_UDP)
+    (hsl : shortLivedUdp p.tuples.five = false) (hl : udpLive w p.tuples.five = some cs)
+    (hw : cs.wanDir = false) (hr : cs.hasRouting ≠ 0) (hrt : rtrackRoom w s p) :
+    (lanIngress rt w s l2).2.realises w s true (lanFate w s p cs.decision) ∧
+    lanIngress rt w s l2 = lanIngress rt' w s l2 ∧
+    ∃ cs', alookup (lanIngress rt w s l2).1.conn p.tuples.five = some cs' ∧ cs'.decision = cs.decision ∧
+      cs'.hasRouting = cs.hasRouting ∧ cs'.wanDir = cs.wanDir := by
+  have hnt : p.l4proto ≠ IPPROTO_TCP := by rw [ht]; decide
+  rw [lanIngress_pkt rt w s l2 p hp, lanIngress_pkt rt' w s l2 p hp, lanIngressPkt_udp rt w s l2 p hnt hsl,
+    lanIngressPkt_udp rt' w s l2 p hnt hsl]
+  obtain ⟨t, hte⟩ := touchUdp_eq cs w.now { dscp := p.tuples.dscp } rfl
+  have hm := markUdpSeen_live w p.tuples.five false { dscp := p.tuples.dscp } cs hl
+  have hm2 : (markUdpSeen w p.tuples.five false { dscp := p.tuples.dscp }).2 =
+      some (touchUdp cs w.now { dscp := p.tuples.dscp }) := by rw [hm]
+  have hdec : (touchUdp cs w.now { dscp := p.tuples.dscp }).decision = cs.decision := by rw [hte]; rfl
+  have hr' : (touchUdp cs w.now { dscp := p.tuples.dscp }).hasRouting ≠ 0 := by rw [hte]; exact hr
+  have hw' : (touchUdp cs w.now { dscp := p.tuples.dscp }).wanDir = false := by rw [hte]; exact hw
+  refine ⟨?_, lanUdp_tracked_rt rt rt' w s l2 p _ hm2 hw' hr', ?_⟩
+  · rw [← hdec]
+    exact lanUdp_tracked_out rt w s l2 p _ hm2 hw' hr' hrt
+  · have hlk : alookup (markUdpSeen w p.tuples.five false { dscp := p.tuples.dscp }).1.conn p.tuples.five =
+        some (touchUdp cs w.now { dscp := p.tuples.dscp }) := by
+      rw [hm]; exact alookup_areplace_self _ _ _ _ (udpLive_lookup w _ cs hl)
+    obtain ⟨cs', h1, h2, h3, h4⟩ := lanUdp_tracked_conn rt w s l2 p _ hm2 hw' hr' hlk
+    exact ⟨cs', h1, by rw [h2, hdec], by rw [h3, hte], by rw [h4, hte]⟩
+
+/-- **Established TCP without a cached decision passes untouched** (LAN side): no entry, an expired
+entry, or an entry that holds no decision — e.g. the reply path of a connection opened from the WAN
+side.  Nothing is routed. -/
+theorem lan_untracked_tcp_passes (rt : RouteIn → Int) (w : World) (s : Skb) (l2 : Bool) (p : Pkt)
+    (hp : parsePacket s.raw l2 = .pkt p) (ht : p.l4proto = IPPROTO_TCP) (hns : (p.syn && !p.ack) = false)
+    (hl : ∀ cs, tcpLive w p.tuples.five false = some cs → cs.hasRouting = 0) :
+    (lanIngress rt w s l2).2 = outOk s s.mark := by
+  rw [lanIngress_pkt rt w s l2 p hp, lanIngressPkt_tcp_est rt w s l2 p ht hns]
+  apply lanTcpEstablished_untracked
+  intro cs' hm
+  cases hlv : tcpLive w p.tuples.five false with
+  | none => rw [markTcpSeen_dead w _ false _ {} hlv] at hm; simp at hm
+  | some cs =>
+    rw [markTcpSeen_live w _ false _ {} cs hlv] at hm
+    injection hm with hm
+    obtain ⟨t, st, hte⟩ := touchTcp_eq cs w.now (p.fin || p.rst)
+    rw [← hm, hte]; exact hl cs hlv
 
 end DaeVerif.C03.Props
